@@ -89,12 +89,29 @@ RunAt(j) ==
       pre == IF j % 2 = 0 THEN <<101>> ELSE <<233>>
   IN  MItem("mnemonic.seed", "runs", [text |-> Mn12, pass |-> CpsToStr(pre \o [i \in 1..n |-> c])])
 
+\* LONG passphrases: filler letters, then a pair of marks that canonical reordering swaps (U+0307 class 230, U+0323 class
+\* 220), placed so that the second mark begins at byte offset B - s for the block sizes B = 256 .. 65536 and s = 0..9 (with
+\* and without the 8 bytes of "mnemonic" in front, and one off): normalisation is not local to a window of bytes.  The same
+\* with a precomposed letter (U+00EA) in front of the second mark, and with a compatibility character.
+BlockSizes == <<256, 512, 1024, 2048, 4096, 8192, 16384, 32768, 65536>>
+NBoundary == Len(BlockSizes) * 10 * 3
+BoundaryAt(j) ==
+  LET B == BlockSizes[1 + ((j - 1) % Len(BlockSizes))]
+      s == ((j - 1) \div Len(BlockSizes)) % 10
+      m == (j - 1) \div (10 * Len(BlockSizes))
+      first == IF m = 0 THEN <<775>> ELSE IF m = 1 THEN <<234>> ELSE <<65438>>          \* 2, 2 and 3 bytes of UTF-8
+      flen  == IF m = 2 THEN 3 ELSE 2
+      second == IF m = 2 THEN <<12441>> ELSE <<803>>
+  IN  MItem("mnemonic.seed", "block_boundaries",
+            [text |-> Mn12, pass |-> CpsToStr(Rep(B - s - flen, 97) \o first \o second \o <<98, 99>>)])
+
 Pool == <<228, 8491, 65313, 64257, 178, 54620, 119964, 128512, 97, 776, 32, 49, 241, 937>>
 NFixed == 5 * 2 * Len(Passes)
 NMix   == IF Thorough THEN 3000 ELSE 150
-Count  == NFixed + NMix + NSingles + NPairs + NLonePairs + NRuns
+Count  == NFixed + NMix + NSingles + NPairs + NLonePairs + NRuns + NBoundary
 ItemAt(g) ==
-  IF g > NFixed + NMix + NSingles + NPairs + NLonePairs THEN RunAt(g - NFixed - NMix - NSingles - NPairs - NLonePairs)
+  IF g > NFixed + NMix + NSingles + NPairs + NLonePairs + NRuns THEN BoundaryAt(g - NFixed - NMix - NSingles - NPairs - NLonePairs - NRuns)
+  ELSE IF g > NFixed + NMix + NSingles + NPairs + NLonePairs THEN RunAt(g - NFixed - NMix - NSingles - NPairs - NLonePairs)
   ELSE IF g > NFixed + NMix + NSingles + NPairs THEN LonePairAt(g - NFixed - NMix - NSingles - NPairs)
   ELSE IF g > NFixed + NMix + NSingles THEN PairSweepAt(g - NFixed - NMix - NSingles)
   ELSE IF g > NFixed + NMix THEN SingleSweepAt(g - NFixed - NMix)
